@@ -609,7 +609,15 @@ func (sc *segmentController[T, O]) updateOptions(resourceOpts *commonv1.Resource
 	sc.opts.ShardNum = resourceOpts.ShardNum
 }
 
-func (sc *segmentController[T, O]) selectSegments(timeRange timestamp.TimeRange, reopenClosed bool) (tt []Segment[T, O], err error) {
+func (sc *segmentController[T, O]) selectSegments(timeRange timestamp.TimeRange, reopenClosed bool) ([]Segment[T, O], error) {
+	tt, _, err := sc.selectSegmentsWithPins(timeRange, reopenClosed)
+	return tt, err
+}
+
+// selectSegmentsWithPins is selectSegments that also reports, per returned
+// segment, whether this call took a reference on it. A stats peek
+// (reopenClosed=false) does not pin dormant or closed segments.
+func (sc *segmentController[T, O]) selectSegmentsWithPins(timeRange timestamp.TimeRange, reopenClosed bool) (tt []Segment[T, O], pinned []bool, err error) {
 	sc.RLock()
 	defer sc.RUnlock()
 	last := len(sc.lst) - 1
@@ -627,29 +635,44 @@ func (sc *segmentController[T, O]) selectSegments(timeRange timestamp.TimeRange,
 					// Release the segments already pinned in earlier iterations so a
 					// mid-loop incRef failure does not leak refs (which would block
 					// idle-close and retention-delete for them indefinitely).
-					for _, pinned := range tt {
-						pinned.DecRef()
+					for _, p := range tt {
+						p.DecRef()
 					}
-					return nil, err
+					return nil, nil, err
 				}
 				s.lastAccessed.Store(now)
+				pinned = append(pinned, true)
 			} else {
 				// Stats peek: pin only if already open, never reopen.
+				took := false
 				for {
 					current := atomic.LoadInt32(&s.refCount)
 					if current <= 0 {
 						break
 					}
 					if atomic.CompareAndSwapInt32(&s.refCount, current, current+1) {
+						took = true
 						break
 					}
 				}
+				pinned = append(pinned, took)
 			}
 			tt = append(tt, s)
 		}
 	}
-	return tt, nil
+	return tt, pinned, nil
 }
+
+// unpinnedSegment is a segment a stats peek returned without taking a
+// reference. Its DecRef releases nothing: a plain DecRef would drop the
+// reference of a reader that acquired the segment after the peek looked at it,
+// letting the idle reclaimer close, or a deferred delete remove, a segment that
+// is still in use.
+type unpinnedSegment[T TSTable, O any] struct {
+	*segment[T, O]
+}
+
+func (unpinnedSegment[T, O]) DecRef() {}
 
 // peekSegments returns lightweight descriptors of the segments overlapping timeRange
 // WITHOUT opening (incRef-ing) any of them. It snapshots the matching segments' time
